@@ -22,11 +22,12 @@ type c16Case struct {
 	Tree    fsmodel.Tree `json:"tree"`
 	Include []string     `json:"include,omitempty"`
 	Exclude []string     `json:"exclude,omitempty"`
-	Dst     string       `json:"dst"` // empty | populated
+	Dst     string       `json:"dst"` // empty | populated | conflict
+	Repl    bool         `json:"repl,omitempty"`
 }
 
 func (c c16Case) String() string {
-	return fmt.Sprintf("tree=%v include=%q exclude=%q dst=%s", c.Tree.Paths(), c.Include, c.Exclude, c.Dst)
+	return fmt.Sprintf("tree=%v include=%q exclude=%q dst=%s always-replace=%v", c.Tree.Paths(), c.Include, c.Exclude, c.Dst, c.Repl)
 }
 
 func judgeC16(c c16Case) (string, string) {
@@ -47,8 +48,55 @@ func judgeC16(c c16Case) (string, string) {
 			return "infra", err.Error()
 		}
 	}
+	if c.Dst == "conflict" {
+		// the destination holds a directory where the source has a file, and a symlink to a directory
+		// where the source has a directory
+		prior = fsmodel.Tree{{Path: "other", Kind: fsmodel.Dir, Perm: 0755, Mtime: fsmodel.T0}}
+		for _, n := range c.Tree {
+			if strings.Contains(n.Path, "/") {
+				continue
+			}
+			if n.Kind == fsmodel.File {
+				prior = append(prior, fsmodel.Node{Path: n.Path, Kind: fsmodel.Dir, Perm: 0700, Mtime: fsmodel.T0}, fsmodel.Node{Path: n.Path + "/keep", Kind: fsmodel.File, Perm: 0600, Mtime: fsmodel.T0, Data: []byte("k")})
+			} else if n.Kind == fsmodel.Dir {
+				prior = append(prior, fsmodel.Node{Path: n.Path, Kind: fsmodel.Symlink, Perm: 0777, Mtime: fsmodel.T0, Link: "other"})
+			}
+		}
+		prior.Sort()
+		if err := fsmodel.Materialize(prior, dst); err != nil {
+			return "infra", err.Error()
+		}
+	}
 	before, _ := fsmodel.Snapshot(dst)
-	ci := fscopy.CopyInfo{IncludePatterns: c.Include, ExcludePatterns: c.Exclude, CopyDirContents: true}
+	ci := fscopy.CopyInfo{IncludePatterns: c.Include, ExcludePatterns: c.Exclude, CopyDirContents: true, AlwaysReplaceExistingDestPaths: c.Repl}
+	if c.Dst == "conflict" {
+		// only one thing is judged here: nothing at a path the patterns do not select is touched
+		kept, kerr := naiveKept(c.Tree, c.Include, c.Exclude)
+		ck, cerr := chainKept(c.Tree, c.Include, c.Exclude)
+		if kerr != nil || cerr != nil {
+			return "infra", "patterns"
+		}
+		sel := map[string]bool{}
+		for _, p := range append(closure(c.Tree, kept), closure(c.Tree, ck)...) {
+			sel[p] = true
+		}
+		fscopy.Copy(context.Background(), src, "/", dst, "/", fscopy.WithCopyInfo(ci)) // conflicts may fail the call
+		after, err := fsmodel.Snapshot(dst)
+		if err != nil {
+			return "infra", err.Error()
+		}
+		for _, b := range before {
+			top := strings.SplitN(b.Path, "/", 2)[0]
+			if sel[top] {
+				continue
+			}
+			a := after.Find(b.Path)
+			if a == nil || a.Kind != b.Kind || string(a.Data) != string(b.Data) || a.Link != b.Link {
+				return "unselected-dest-entry-touched", fmt.Sprintf("%s is not selected by the patterns, but the destination entry %s was changed or removed", top, b.Path)
+			}
+		}
+		return "", ""
+	}
 	if err := fscopy.Copy(context.Background(), src, "/", dst, "/", fscopy.WithCopyInfo(ci)); err != nil {
 		return "copy-failed", err.Error()
 	}
@@ -174,9 +222,16 @@ func runC16(r *evid.Run) {
 			}
 		}
 	}
+	// a tree with empty directories before, between and after selected entries
+	et := fsmodel.Tree{{Path: "a", Kind: fsmodel.Dir, Perm: 0750, UID: 1234, GID: 2345, Mtime: fsmodel.T0}, {Path: "a/b", Kind: fsmodel.Dir, Perm: 0755, UID: 1234, GID: 2345, Mtime: fsmodel.T0},
+		{Path: "ab", Kind: fsmodel.Dir, Perm: 0755, UID: 1234, GID: 2345, Mtime: fsmodel.T0}, {Path: "ab/c", Kind: fsmodel.File, Perm: 0644, Mtime: fsmodel.T0 + 3, Data: []byte("c")},
+		{Path: "b", Kind: fsmodel.Dir, Perm: 0755, UID: 1234, GID: 2345, Mtime: fsmodel.T0}, {Path: "b/a", Kind: fsmodel.File, Perm: 0644, Mtime: fsmodel.T0 + 4, Data: []byte("ba")},
+		{Path: "c", Kind: fsmodel.Dir, Perm: 0755, UID: 1234, GID: 2345, Mtime: fsmodel.T0}}
+	et.Sort()
+	trees = append([]fsmodel.Tree{et}, trees...)
 	incs := patternLists(2, c10Patterns)
 	excs := patternLists(1, c10Patterns)
-	nt := 4
+	nt := 5
 	if r.Tier == "thorough" {
 		excs = patternLists(2, c10Patterns)
 		nt = len(trees)
@@ -192,6 +247,12 @@ func runC16(r *evid.Run) {
 				if len(in)+len(ex) <= 2 {
 					cases = append(cases, c16Case{Tree: t, Include: in, Exclude: ex, Dst: "populated"})
 				}
+			}
+		}
+		// always-replace against a destination that conflicts at every top-level name
+		for _, in := range patternLists(1, c10Patterns) {
+			for _, ex := range patternLists(1, c10Patterns) {
+				cases = append(cases, c16Case{Tree: t, Include: in, Exclude: ex, Dst: "conflict", Repl: true})
 			}
 		}
 		if r.Tier != "thorough" {
